@@ -108,10 +108,26 @@ def orchestrator_oracles(ops, cls_size, cls_align=8):
     rejected-unchanged, accept-predicate"""
     out = []
     req = {}     # register -> alignment requested by with_alignment (while it keeps its buffer)
+    pending = {} # borrowing iterator -> (vector register, its state when the iterator was created)
     for i, op in enumerate(ops):
         n, a = op.name, op.args
         if not a or op.result is None:
             continue
+        # --- storage stability across a borrowing iterator: if the final contents fit the capacity the
+        #     vector had when the iterator was created, creating, stepping and dropping it must not reallocate
+        if n in ("drain", "splice", "drain_filter") and op.result == "ok":
+            b0, h0 = state_before(ops, i, a[0])
+            if b0 is not None:
+                pending[a[-1]] = (a[0], b0, h0)
+        if n == "drop" and a[0] in pending and op.result == "ok":
+            r0, b0, h0 = pending.pop(a[0])
+            aft, haft = op.S.get(r0), op.H.get(r0)
+            if aft is not None and h0 is not None and aft[0] <= b0[1]:
+                moved = haft is None or haft.get("blk") != h0.get("blk") or aft[1] != b0[1]
+                if moved:
+                    out.append(("stable", i, "iterator `%s` over %s dropped: result fits (len %d, capacity before %d) but storage/capacity changed: %s -> %s cap %d" % (a[0], r0, aft[0], b0[1], h0, haft, aft[1])))
+        if n == "forget" and a[0] in pending:
+            pending.pop(a[0])
         r = a[0]
         before, hbefore = state_before(ops, i, r)
         after = op.S.get(r)
